@@ -147,6 +147,12 @@ func (e *Engine) doAssert(c Term, tag string) {
 		}
 		return
 	}
+	if o.Violated >= 3 && len(o.Cex) >= 3 {
+		// the tag is violated in this run and has its counterexamples: further occurrences cannot change the
+		// verdict, and on a broken tree each may cost a solver time-out
+		o.NotDecided++
+		return
+	}
 	e.solver.Push()
 	e.solver.Assert(Not(c))
 	r := e.solver.Check()
